@@ -96,7 +96,8 @@ def _maneuvers(sv, spec, k):
             # the same instant, labelled in another time scale than the state's: the message has one TIME_SYSTEM, so it comes back in the state's scale
             d = d.change_scale("TAI" if sv.date.scale.name != "TAI" else "TT")
         dv = [0.5 + j, -1.25 * (k % 3 + 1), 0.000123 + 0.001 * j]
-        comment = f"burn {j}" if com else None
+        # (a comment is free text: it may contain the keyword itself, an equal sign)
+        comment = (f"burn {j}", f"burn {j}: see COMMENT above, dv = nominal")[(k + j) % 2] if com else None
         if kind == "impulsive":
             out.append(ImpulsiveMan(d, dv, frame=fr, comment=comment))
         else:
